@@ -326,7 +326,9 @@ class Scenario:
             if [e[1] for e in self.events if e[0] == 'disconnect'] == \
                     list(self.nss):
                 self.ctx.count('transport_closed_right_after_last_disconnect')
-            h.lose()
+                h.lose()
+            else:
+                h.pump()
         elif c == 'server_disconnect_last':
             for ns in self.nss:
                 h.server_send(R.DISCONNECT, ns)
@@ -426,14 +428,16 @@ class Scenario:
                 elif cse == 'server_disconnect_last' and self.close_after:
                     for ns in self.nss:
                         h.deliver(R.DISCONNECT, ns)
-                    for _ in range(50):
+                    for _ in range(200):
                         if [e[1] for e in self.events
                                 if e[0] == 'disconnect'] == list(self.nss):
                             self.ctx.count('transport_closed_right_after_'
                                            'last_disconnect')
+                            # (only then: a loss before the last DISCONNECT
+                            # has been handled would be an accidental one)
+                            await h.a_lose()
                             break
                         await asyncio.sleep(0)
-                    await h.a_lose()
                 elif cse == 'server_disconnect_last':
                     for ns in self.nss:
                         h.deliver(R.DISCONNECT, ns)
